@@ -15,6 +15,12 @@ def main():
         bad = (eq != eq2) or (eq != (inp['name_a'].lower() == inp['name_b'].lower())) or (eq and ha != hb)
         out = {'reproduced': bool(bad), 'observed': {'a==b': eq, 'b==a': eq2, 'hash_equal': ha == hb,
                                                      'len({a,b})': len({a, b})}}
+    if inp['function'] == 'match_item_keys':
+        from loki.batch import SchedulerConfig
+        a = SchedulerConfig.match_item_keys(inp['name_a'], [inp['key_a']], False, inp.get('match_item_parents', False))
+        b = SchedulerConfig.match_item_keys(inp['name_b'], [inp['key_b']], False, inp.get('match_item_parents', False))
+        same_case_class = inp['name_a'].lower() == inp['name_b'].lower() and inp['key_a'].lower() == inp['key_b'].lower()
+        out = {'reproduced': bool(same_case_class and a != b), 'observed': {'run_a': list(a), 'run_b': list(b)}}
     print(json.dumps(out))
 
 
